@@ -121,7 +121,7 @@ func vfH_C04_window(tier int) {
 	vfNote(a[0] + "<window>" + a[1])
 	vfNoteRunes("window", win)
 	api := 0
-	if n < 2 || (tier > 0 && n == 2) {
+	if n < 2 || (tier > 0 && n == 2 && ai%3 == 1) {
 		api = vfChoice(3) // the other two entry points get the shorter windows in the quick tier
 	}
 	switch api {
